@@ -13,6 +13,7 @@ import translate_utils
 import translate_annotators
 import translate_export
 import translate_import
+import translate_ctor
 
 ok_all = True
 print("history", translate_history.regenerate())
@@ -23,7 +24,8 @@ for name, f in [("name_mapping", translate_name_mapping.regenerate), ("utils", t
                 ("labels", translate_numpy_utils.regenerate_labels), ("relabel", translate_numpy_utils.regenerate_relabel),
                 ("toggle", translate_toggle.regenerate), ("candgraph", translate_candgraph.regenerate),
                 ("core", translate_core.regenerate), ("annotators", translate_annotators.regenerate),
-                ("export", translate_export.regenerate), ("import", translate_import.regenerate)]:
+                ("export", translate_export.regenerate), ("import", translate_import.regenerate),
+                ("ctor", translate_ctor.regenerate)]:
     r = f()
     print(name, r)
     ok_all &= bool(r[0])
